@@ -13,7 +13,7 @@
 EXTENDS Naturals, Sequences, FiniteSets, TLC, Json
 CONSTANTS Targets, Tsizes, DataVals, Builders, MaxLinks,
           NNames,   \* how many of <<"", "a", "b">> are used
-          Lean,     \* TRUE: reduced call alphabet (deeper exhaustive enumeration)
+          Lean,     \* 0 / 1 / 2: how much the call alphabet is reduced (deeper exhaustive enumeration)
           D, E      \* BFS: D = E = depth (script mode: D = bound on the script length)
 VARIABLES links, dirty, data, builder, encCache, cidCache, ins, out,
           alinks, adirty, adata, abuilder, aencCache, acidCache, ains, aout,
@@ -38,11 +38,13 @@ A == INSTANCE PBNode WITH NameOrder <- GNameOrder, SetLinksArgs <- GSetLinksArgs
                           links <- alinks, dirty <- adirty, data <- adata, builder <- abuilder,
                           encCache <- aencCache, cidCache <- acidCache, ins <- ains, out <- aout
 
-LeanOps == {"Add", "Remove", "SetLinks", "SetData", "SetBuilder", "Links", "Raw", "Force", "Cid", "Copy", "Decode", "DecodeBlock"}
-Keep(a) == ~Lean \/ /\ a.op \in LeanOps
-                    /\ a.op = "SetData" => a.d # "empty"
-                    /\ a.op = "SetBuilder" => a.b \in {"nil", "v1"}
-                    /\ a.op = "SetLinks" => Len(a.ls) # 2
+\* Lean = 0: every call of PBNode!Acts; 1: reduced alphabet; 2: further reduced (deepest enumeration)
+LeanOps == IF Lean = 1 THEN {"Add", "Remove", "SetLinks", "SetData", "SetBuilder", "Links", "Raw", "Force", "Cid", "Copy", "Decode", "DecodeBlock"}
+           ELSE {"Add", "Remove", "SetLinks", "SetData", "SetBuilder", "Links", "Raw", "Cid", "Copy", "DecodeBlock"}
+Keep(a) == Lean = 0 \/ /\ a.op \in LeanOps
+                       /\ a.op = "SetData" => a.d # "empty"
+                       /\ a.op = "SetBuilder" => a.b \in {"nil", "v1"}
+                       /\ a.op = "SetLinks" => Len(a.ls) # 2
 GActs == {a \in I!Acts : Keep(a)}
 
 InitData == {"nil"}                                   \* BFS starts from &ProtoNode{}
